@@ -234,6 +234,37 @@ func main() {
 			verifRoot = d
 		}
 	}
+	if flag.NArg() >= 1 && flag.Arg(0) == "listfuncs" {
+		// kafcheck listfuncs: every named function of every module (writes anchors/known_funcs.txt's
+		// content to stdout; run once on the pinned commit, see fold.go)
+		r := os.Getenv("KAFCHECK_REPO")
+		if r == "" {
+			r = "/repo"
+		}
+		repoRoot = r
+		os.Setenv("KAFCHECK_NOFOLD", "1")
+		seen := map[string]bool{}
+		for _, name := range []string{"root", "iceberg", "sql", "skeleton"} {
+			m, err := loadModule(r, name, nil)
+			if err != nil {
+				fmt.Fprintln(os.Stderr, "listfuncs:", err)
+				os.Exit(2)
+			}
+			for _, fn := range namedLocalFuncs(m) {
+				seen[fn.String()] = true
+			}
+		}
+		var names []string
+		for n := range seen {
+			names = append(names, n)
+		}
+		sort.Strings(names)
+		fmt.Println("# functions and methods of KafScale/platform the rules may be anchored on; anything else unexported is folded into its callers (fold.go)")
+		for _, n := range names {
+			fmt.Println(n)
+		}
+		return
+	}
 	if flag.NArg() >= 1 && flag.Arg(0) == "warm" {
 		// kafcheck warm: load every module once so that `go list -export` has compiled the
 		// dependencies' export data into the build cache (used by setup_cmd; a cold iceberg
